@@ -170,6 +170,15 @@ class C10(object):
         return (300, 20.0)
 
     def gen(self, rng, tier, k):
+        if k % 4 == 3:
+            # inside running computations: computed futures are re-read at seeded trace points
+            from .. import gen as g
+            cfg = g.swarm(rng, {"p_sync": 0.1, "p_try": 0.1, "p_fault": 0.15, "item_faults": 0.06, "flush_faults": 0.06,
+                                "p_lazy": 0.12, "p_create": 0.25, "p_ref": 0.25, "p_ctx": 0.05})
+            spec = g.gen_program(rng, cfg)
+            spec["outcome_rate"] = rng.choice([0.3, 1.0])
+            spec["probe_seed"] = rng.randint(0, 10 ** 6)
+            return {"kind": "sim", "spec": spec}
         kind = KINDS[k % len(KINDS)] if rng.random() < 0.5 else rng.choice(KINDS)
         n = rng.randint(2, 14)
         ops = []
@@ -181,9 +190,18 @@ class C10(object):
         return {"kind": kind, "ops": ops}
 
     def sample(self, case, r):
+        if case.get("kind") == "sim":
+            return {"kind": "sim", "templates": case["spec"]["templates"][:2], "outcome_rate": case["spec"]["outcome_rate"]}
         return case
 
     def run(self, case, build):
+        if case.get("kind") == "sim":
+            from .. import progsim
+            r = progsim.execute(case["spec"], ("C10",), check_values=False)
+            out = [(c, m) for (p, c, m) in r["violations"] if p == "C10"]
+            r["stats"]["probes"]["kind:sim"] = 1
+            return {"violations": out, "stats": r["stats"], "sig": "sim:" + r["digest"],
+                    "nontrivial": r["stats"]["probes"].get("computed_futures_reread", 0) > 3, "digest": r["digest"]}
         kind = case["kind"]
         out = []
         log = []
